@@ -443,6 +443,16 @@ class ProjectData(sc.prettyobj):
 
     def validate(self, framework) -> bool:
         """
+        Check if the ProjectData instance can be used to run simulations (see :meth:`_validate`). Failed checks are
+        reported as :class:`InvalidDatabook`
+        """
+        try:
+            return self._validate(framework)
+        except AssertionError as e:
+            raise InvalidDatabook(str(e)) from e
+
+    def _validate(self, framework) -> bool:
+        """
         Check if the ProjectData instance can be used to run simulations
 
         A databook can be 'valid' in two senses
